@@ -1,5 +1,5 @@
 """C13 — the per-thread device kernel body reproduces host evaluation for any launch geometry."""
-import itertools, re
+import itertools, os, re
 from collections import Counter
 
 ID = "C13"
@@ -18,13 +18,18 @@ CLAIM = dict(
           "among them parameterised unary ufuncs (leaky_relu / hardtanh / hardshrink / softshrink with NON-default run-time "
           "parameters taken from the case line, as single node and as inner / outer node of depth-2/3 compositions), a reduction with "
           "run-time axis and initial value, and expand_dims / reshape / broadcast_to / tile raising operand ranks 1..4 to OUTPUT "
-          "ranks 5..8 (the capacity of the kernel's shape vector); "
+          "ranks 5..8 (the capacity of the kernel's shape vector), and views of rank >= 3 whose attributes have as_static_t "
+          "specialisations (transpose with non-reversal permutations, repeat, roll, cumsum, sum with keepdims, tile, reshape, "
+          "broadcast_to); every composition also on the HIP/SYCL ROUTE: the extracted function is first mapped with the mirrored "
+          "context_t::map_to_device, which calls the real array::as_static on every functor attribute (CUDA passes the function "
+          "as it is; OpenCL has no such mapping); "
           "compared: final buffer, per-thread write set, guard cells behind the buffer, host view. "
           "PARTIAL: device runtimes are absent from the sandbox - real device memory models, warp scheduling, vendor launch "
           "code (the geometry arithmetic sits in headers that need the CUDA/HIP/SYCL/OpenCL toolkits) are neither modelled nor "
           "corresponded. That result == host evaluation is C14's extraction theorem; its finding (non-leaf operand at position >= 1) is inherited."),
     ref="5.13", technique="Coq proof (invariant over an arbitrary schedule) + differential correspondence of a host simulation", extra="")
-RULE = ("26 fixed view compositions (depth 1..3; 11 with run-time attributes: activation parameters in {-1.5,-0.25,0.25,0.5,0.75,2.5,"
+RULE = ("36 fixed view compositions x routes {cuda (device_array), ocl (create_array views), cudaN (fixed DIM), hip (attributes "
+        "through array::as_static)}; 26 fixed view compositions (depth 1..3; 11 with run-time attributes: activation parameters in {-1.5,-0.25,0.25,0.5,0.75,2.5,"
         "7.5,10}, clamp pairs, shrink thresholds, reduction axis/initial, on data with negatives and out-of-clamp values; 6 "
         "rank-raising views with output rank 5..8 and distinct extents) x operand shapes dim 1..4 x operand styles (device_array DIM=0, fixed DIM, "
         "create_array views) x block sizes 1..33 x grids exact..2x x orders (ascending, descending, interleaved, seeded "
@@ -43,9 +48,13 @@ SENT = -999
 
 
 def drivers(tier):
-    # part 2 = second build of the same source (views with run-time attributes, outputs of rank 5..8); a different
-    # flavour so that the binary cache keeps both; 3 compile jobs
-    return {"c13": [("c13.cpp", "ndebug", ()), ("c13.cpp", "asan", ("-DVD_LIGHT",)), ("c13.cpp", "debug", ("-DC13_PART=2",))]}
+    # c13.cpp is built four times (2 groups of 2 compile jobs): part 1 = first table, styles cuda/ocl/cudaN (ndebug, asan);
+    # part 2 = views with run-time attributes / high-rank outputs / rank>=3 attribute views, styles cuda/ocl (debug flavour);
+    # part 3 (c13h.cpp = #include "c13.cpp") = ALL compositions on the hip/sycl route (attributes through array::as_static)
+    import hashlib
+    h = hashlib.sha256(open(os.path.join(os.path.dirname(__file__), "..", "..", "drivers", "c13.cpp"), "rb").read()).hexdigest()[:10]
+    return {"c13": [("c13.cpp", "ndebug", ()), ("c13.cpp", "asan", ("-DVD_LIGHT",))],
+            "c13b": [("c13.cpp", "debug", ("-DC13_PART=2",)), ("c13h.cpp", "ndebug", ("-DC13_SRC_HASH=0x" + h,))]}
 
 
 # ---------------------------------------------------------------- tiny reference evaluator (independent of nmtools)
@@ -100,6 +109,22 @@ def broadcast_to(a, sh):
 def tile(a, reps):
     n = max(len(reps), len(a[0])); pad = (1,) * (n - len(a[0])) + tuple(a[0]); r = (1,) * (n - len(reps)) + tuple(reps)
     return gen(tuple(x * y for x, y in zip(pad, r)), lambda i: a[1][ravel(tuple(x % e for x, e in zip(i, pad)), pad)])
+def transpose_ax(a, axes):
+    sh = tuple(a[0][k] for k in axes)
+    def src(i):
+        j = [0] * len(axes)
+        for pos, k in enumerate(axes): j[k] = i[pos]
+        return tuple(j)
+    return gen(sh, lambda i: at(a, src(i)))
+def repeat_ax(a, r, ax):
+    sh = a[0][:ax] + (a[0][ax] * r,) + a[0][ax + 1:]
+    return gen(sh, lambda i: at(a, i[:ax] + (i[ax] // r,) + i[ax + 1:]))
+def roll_ax(a, shift, ax):
+    n = a[0][ax]
+    return gen(a[0], lambda i: at(a, i[:ax] + ((i[ax] - shift) % n,) + i[ax + 1:]))
+def cumsum_ax(a, ax): return gen(a[0], lambda i: sum(at(a, i[:ax] + (j,) + i[ax + 1:]) for j in range(i[ax] + 1)))
+def sum_keep(a, ax, init):
+    r = sum_axis(a, ax); return (a[0][:ax] + (1,) + a[0][ax + 1:], [x + init for x in r[1]])
 def Q(p): return p / 4.0
 def ints(a): assert all(float(x) == int(x) for x in a[1]); return (a[0], [int(x) for x in a[1]])
 COMPS2 = {   # comp -> (reference(a, b, params), parameter kind)
@@ -120,7 +145,19 @@ COMPS2 = {   # comp -> (reference(a, b, params), parameter kind)
     "reshape_hi":    lambda a, b, P: reshape(a, P),
     "bto_hi":        lambda a, b, P: broadcast_to(a, tuple(P)),
     "tile_hi":       lambda a, b, P: tile(a, tuple(P)),
+    # as_static_t<...> attribute views, rank >= 3 operands, non-default attributes
+    "tr_ax":         lambda a, b, P: transpose_ax(a, P),
+    "neg_tr_ax":     lambda a, b, P: neg(transpose_ax(a, P)),
+    "sum_tr_ax":     lambda a, b, P: sum_axis(transpose_ax(a, P), 0),
+    "repeat_p":      lambda a, b, P: repeat_ax(a, P[0], P[1]),
+    "roll_p":        lambda a, b, P: roll_ax(a, P[0], P[1]),
+    "cumsum_p":      lambda a, b, P: cumsum_ax(a, P[0]),
+    "sum_keep":      lambda a, b, P: sum_keep(a, P[0], P[1]),
+    "tile_p":        lambda a, b, P: tile(a, tuple(P)),
+    "reshape_p":     lambda a, b, P: reshape(a, P),
+    "bto_p":         lambda a, b, P: broadcast_to(a, tuple(P)),
 }
+RANK3 = {"tr_ax", "neg_tr_ax", "sum_tr_ax", "repeat_p", "roll_p", "cumsum_p", "sum_keep", "tile_p", "reshape_p", "bto_p"}
 ACT = {"lrelu": 1, "hshrink": 1, "lrelu_add": 1, "add_lrelu": 1, "neg_tr_lrelu": 1,           # slope / lambda: any quarter
        "htanh": 2, "sum_htanh": 2, "htanh_tr_add": 2, "sshrink": 3, "sshrink_lrelu": 4}         # clamp pair / integral lambda
 
@@ -143,6 +180,35 @@ def case2(rng, comp):
         elif k == 3: P = [4 * rng.choice([1, 2, 4, 9])]
         else: P = [rng.choice(slopes), 4 * rng.choice([1, 2, 6])]
         return a, b, P
+    if comp in RANK3:
+        import itertools as it
+        sh = tuple(rng.sample([2, 3, 4, 5], 3)) if rng.random() < 0.7 else tuple(rng.sample([1, 2, 3, 2], 4))
+        while size(sh) > 40: sh = tuple(max(1, e - 1) for e in sh)
+        a = rand_arr(rng, sh); d = len(sh)
+        if comp in ("tr_ax", "neg_tr_ax", "sum_tr_ax"):      # a permutation that is neither the identity nor the full reversal
+            perms = [p for p in it.permutations(range(d)) if list(p) != list(range(d)) and list(p) != list(range(d))[::-1]]
+            P = list(rng.choice(perms))
+        elif comp == "repeat_p": P = [rng.randint(2, 3), rng.randrange(d)]
+        elif comp == "roll_p": P = [rng.choice([-3, -1, 1, 2, 4]), rng.randrange(d)]
+        elif comp == "cumsum_p": P = [rng.randrange(d)]
+        elif comp == "sum_keep": P = [rng.randrange(d), rng.choice([-7, 3, 100])]
+        elif comp == "tile_p":
+            P = [rng.choice([1, 2, 2, 3]) for _ in range(d)]
+            while size(P) * size(sh) > 72: P[rng.randrange(d)] = 1
+        elif comp == "reshape_p":
+            f = []
+            for e in sh:
+                for q in (2, 3, 5):
+                    while e % q == 0 and e > 1: f.append(q); e //= q
+            rng.shuffle(f); f = f or [1]
+            while len(f) > 3: x = f.pop(); f[rng.randrange(len(f))] *= x
+            while len(f) < 3: f.insert(rng.randint(0, len(f)), 1)
+            P = f
+        else:   # bto_p
+            src = tuple(e if rng.random() < 0.5 else 1 for e in sh); a = rand_arr(rng, src)
+            P = list(sh) if rng.random() < 0.5 else [2] + list(sh)
+            while size(P) > 64: P[0] = 1
+        return a, a, P
     if comp == "sum_ax_init":
         sh = shape(2, 4); a = rand_arr(rng, sh)
         return a, a, [rng.randrange(len(sh)), rng.choice([-7, 0, 3, 100])]
@@ -232,7 +298,7 @@ KINDS = ["ascending", "descending", "interleaved", "permuted", "duplicates", "in
 
 def gen_cases(rng, tier):
     out = []
-    def add(stream, line): out.append((stream, line, "c13"))
+    def add(stream, line, key="c13"): out.append((stream, line, key))
     per = 8 if tier == "quick" else 60
     for comp in COMPS:
         reps = per if comp not in NONWF else max(2, per // 4)
@@ -244,10 +310,11 @@ def gen_cases(rng, tier):
                 n = size(r[0])
                 bsz, th = schedule(rng, n, kind)
                 if not th: continue
-                style = rng.choice(["cuda", "cuda", "ocl", "cudaN"])
+                style = rng.choice(["cuda", "cuda", "ocl", "cudaN", "hip", "hip"])      # hip = the hip/sycl route (part 3)
                 if style == "cudaN" and len(r[0]) > 2: style = "cuda"
                 add("schedules-" + kind if comp not in NONWF else "inherited-findings",
-                    "kern S:%s S:%s %s %s %s I:%d %s %s" % (comp, style, A(a), A(b), A(r), bsz, L([t for t, _ in th]), L([b_ for _, b_ in th])))
+                    "kern S:%s S:%s %s %s %s I:%d %s %s" % (comp, style, A(a), A(b), A(r), bsz, L([t for t, _ in th]), L([b_ for _, b_ in th])),
+                    "c13b" if style == "hip" else "c13")
     # part 2: run-time attributes and high-rank outputs, same schedule sweeps
     per2 = 2 if tier == "quick" else 12
     for comp in COMPS2:
@@ -258,9 +325,11 @@ def gen_cases(rng, tier):
                 n = size(r[0])
                 bsz, th = schedule(rng, n, kind)
                 if not th: continue
-                stream = ("attributes-" if comp in ACT or comp == "sum_ax_init" else "rank-%d-" % len(r[0]) if len(r[0]) >= 5 else "rank-low-") + kind
-                add(stream, "kern S:%s S:%s %s %s %s I:%d %s %s %s" % (comp, rng.choice(["cuda", "ocl"]), A(a), A(b), A(r), bsz,
-                                                                       L([t for t, _ in th]), L([b_ for _, b_ in th]), L(P)))
+                style = rng.choice(["cuda", "ocl", "hip"])
+                stream = ("attributes-" if comp in ACT or comp == "sum_ax_init" or comp in RANK3 else "rank-%d-" % len(r[0]) if len(r[0]) >= 5 else "rank-low-") + kind
+                add(stream + ("-hip" if style == "hip" else ""),
+                    "kern S:%s S:%s %s %s %s I:%d %s %s %s" % (comp, style, A(a), A(b), A(r), bsz,
+                                                               L([t for t, _ in th]), L([b_ for _, b_ in th]), L(P)), "c13b")
     # boundary: size exactly a multiple of the block, block larger than the output, block size 1
     for comp in ("add", "tr", "neg_tr_add"):
         for n, bsz in ((4, 4), (4, 2), (6, 33), (6, 1), (9, 3), (1, 1), (1, 7)):
